@@ -15,6 +15,25 @@ def req {α} : Option α → Except Err α
 
 def key (s : String) : Str := s.toList
 
+/-! ### `sorted([f for f in line if f.startswith(prefix)])` -/
+
+/-- lexicographic `a ≤ b` on code points (Python's `str` order) -/
+def leChars : List Char → List Char → Bool
+  | [], _ => true
+  | _ :: _, [] => false
+  | a :: as, b :: bs => if a.toNat < b.toNat then true else if b.toNat < a.toNat then false else leChars as bs
+
+def insertField (x : String × Str) : List (String × Str) → List (String × Str)
+  | [] => [x]
+  | y :: ys => if leChars x.1.toList y.1.toList then x :: y :: ys else y :: insertField x ys
+
+/-- insertion sort by field name -/
+def sortFields (l : List (String × Str)) : List (String × Str) := l.foldr insertField []
+
+/-- the fields whose name starts with `pre`, sorted by name -/
+def fieldsWithPrefix (v : Values) (pre : String) : List (String × Str) :=
+  sortFields (v.filter fun (k, _) => pre.toList.isPrefixOf k.toList)
+
 /-! ### `self.meta`: a (possibly nested) dictionary, kept flat as path ↦ leaf -/
 
 inductive Leaf
@@ -152,8 +171,15 @@ def datasetMicros (y mo d h mi : Int) (sec : Rat) : Option Int :=
     let frac7 := n7 % 10000000
     some ((mins * 60 + whole) * 1000000 + roundHalfEven ((frac7 : Rat) / 10))
 
-/-- `obs_sec % sampling_rate != 0` (doubles in the code; exact here — identical for dyadic rates) -/
-def offGrid (obsSec rate : Rat) : Bool := obsSec - rate * ((obsSec / rate).floor : Rat) ≠ 0
+/-- distance of the epoch from the nearest point of the sampling grid:
+`abs(obs_sec - round(obs_sec / rate) * rate)` -/
+def gridDist (obsSec rate : Rat) : Rat :=
+  let g := ((roundHalfEven (obsSec / rate) : Int) : Rat) * rate
+  if obsSec - g < 0 then g - obsSec else obsSec - g
+
+/-- `abs(obs_sec - grid_sec) >= 5e-8`: the epoch is dropped (doubles in the code, exact here; the
+double error of ~1e-11 s is far below the margin for epochs and rates printed with 7 decimals) -/
+def offGrid (obsSec rate : Rat) : Bool := decide (gridDist obsSec rate ≥ 5 / 100000000)
 
 /-- one epoch's worth of per-row bookkeeping -/
 structure EpochInfo where
